@@ -1,0 +1,24 @@
+//go:build verif
+
+package proxycore
+
+import "sync/atomic"
+
+// Hooks for the verification harness in /verif. Compiled only with `-tags verif`.
+
+// VerifSetLBIndex sets the round-robin counter so that the counter's wrap-around can be reached without 2^32 calls.
+func VerifSetLBIndex(lb LoadBalancer, n uint64) {
+	l := lb.(*roundRobinLoadBalancer)
+	atomic.StoreUint64(&l.index, n)
+}
+
+// VerifPending exposes the real pendingRequests bookkeeping with a chosen number of streams.
+type VerifPending struct{ p *pendingRequests }
+
+func VerifNewPending(maxStreams int16) *VerifPending {
+	return &VerifPending{newPendingRequests(maxStreams)}
+}
+
+func (v *VerifPending) Store(r Request) int16         { return v.p.store(r) }
+func (v *VerifPending) LoadAndDelete(s int16) Request { return v.p.loadAndDelete(s) }
+func (v *VerifPending) Closing(err error)             { v.p.closing(err) }
